@@ -354,14 +354,79 @@ func (c *FuncCFG) succeededBefore(call *ast.CallExpr, target Point) ([]string, s
 	if vis[target] {
 		return q.PathTo(target), "a path reaches it without making the call"
 	}
-	// (b) from the call, the target is reachable only through a nil edge of its error
+	// (b) from the call, the target is reachable only through a nil edge of its error,
+	// taken before the error variable is overwritten by something else
 	cp, ok := c.Locate(call)
 	if !ok {
 		return nil, "call not found in graph"
 	}
-	q2, vis2 := c.ReachAvoiding([]Point{cp}, nilEdges, nil)
-	if vis2[target] {
-		return q2.PathTo(target), "a path from the call reaches it without the error having been tested nil"
+	reassigns := func(n ast.Node) bool {
+		if contains(n, call) {
+			return false
+		}
+		hit := false
+		inspectNoLit(n, func(x ast.Node) bool {
+			if as, ok := x.(*ast.AssignStmt); ok {
+				for _, l := range as.Lhs {
+					if objOf(c.Fn, l) == errObj {
+						hit = true
+					}
+				}
+			}
+			return true
+		})
+		return hit
+	}
+	type st struct {
+		p      Point
+		killed bool
+	}
+	parent := map[st]st{}
+	seen := map[st]bool{}
+	work := []st{}
+	push := func(from, to st) {
+		if !seen[to] {
+			seen[to] = true
+			parent[to] = from
+			work = append(work, to)
+		}
+	}
+	advance := func(s st) {
+		if s.p.I+1 < len(s.p.B.Nodes) {
+			push(s, st{Point{s.p.B, s.p.I + 1}, s.killed})
+			return
+		}
+		for si, succ := range s.p.B.Succs {
+			if !s.killed && nilEdges[edge{s.p.B, si}] {
+				continue
+			}
+			if len(succ.Nodes) == 0 {
+				push(s, st{Point{succ, -1}, s.killed})
+			} else {
+				push(s, st{Point{succ, 0}, s.killed})
+			}
+		}
+	}
+	advance(st{cp, false})
+	for len(work) > 0 {
+		cur := work[len(work)-1]
+		work = work[:len(work)-1]
+		if cur.p == target {
+			var out []string
+			for x, ok := cur, true; ok; x, ok = parent[x] {
+				if x.p.I >= 0 && x.p.I < len(x.p.B.Nodes) {
+					out = append([]string{c.P.Position(x.p.B.Nodes[x.p.I].Pos())}, out...)
+				}
+				if len(out) > 30 {
+					break
+				}
+			}
+			return out, "a path from the call reaches it without the call's error having been tested nil (before the error variable is reused)"
+		}
+		if cur.p.I >= 0 && cur.p.I < len(cur.p.B.Nodes) && reassigns(cur.p.B.Nodes[cur.p.I]) {
+			cur.killed = true
+		}
+		advance(cur)
 	}
 	return nil, ""
 }
